@@ -14,7 +14,7 @@ RULE = ("real replica-set Reconciles (active, canary and leftover replica sets) 
         "metadata.name fields, empty and unbuildable terms) and tolerations, and per node 0-4 pods of every phase, scheduled "
         "or pinned by affinity, terminating, duplicated, of the old, the new or a vanished replica set, adopted from a "
         "DaemonSet, plus pods on vanished nodes; a third of the cases run a second sync (back-off memory primed). "
-        "Non-trivial = the sync issued a pod creation or deletion.")
+        "half of the cases read their lists in reversed order, as an informer cache may return them. Non-trivial = the sync issued a pod creation or deletion.")
 ASSUMPTIONS = [
     "the snapshot is the store the Reconcile listed (a stale informer cache is a sync that ran earlier)",
     "pod names are unique per namespace; node names unique",
@@ -46,6 +46,10 @@ def generate(rng, tier, stats):
         if len(c["ops"]) == 1 and rng.random() < 0.15:
             # a second sync right after the gate reopens: created pods are now listed
             c["ops"] += [K.sleep(rng.choice([10, 11, 61])), dict(c["ops"][0], faults=None)]
+        if rng.random() < 0.5:
+            # an informer cache lists in no particular order (the fake client sorts by name)
+            c["options"]["list_order"] = 1
+            wprop.bump(stats, "list order", "permuted")
         out.append(c)
     return out
 
